@@ -1,4 +1,242 @@
-(* Properties/C52.v — placeholder while the correspondence is being brought up *)
-From GV Require Import Lib.Tactics Crypto.Keystore.
-Theorem C52_stub : True. Proof. exact I. Qed.
-Print Assumptions C52_stub.
+(* Properties/C52.v — "Keystore files decrypt only with the right passphrase".
+   Model: Crypto/Keystore.v (accounts/keystore/passphrase.go, key.go, presale.go helpers).
+   All theorems are parametric in the cryptographic primitives
+     H (Keccak-256), kdf (scrypt / PBKDF2: first 32 output bytes), ctr (AES-128-CTR keystream),
+     cbc (raw AES-128-CBC decryption), addr_of (secp256k1 address)
+   and in  lg  (true = passphrase.go before the repair cbf4dace20, false = repaired code),
+   unless stated.  Hypotheses on the primitives are explicit premises. *)
+From Coq Require Import List NArith ZArith.
+From GV Require Import Lib.Bytes Crypto.Keystore Crypto.KeystoreProofs.
+
+(* decrypt (encrypt k) with the same passphrase returns k, its address and its id:
+   for every key 0 < d < N, passphrase, salt, iv and every scrypt parameter set for which
+   EncryptKey succeeds (i.e. accepted by scrypt.Key). *)
+Theorem C52_decrypt_encrypt :
+  forall (H : list N -> list N) (kdf : kdf_alg -> list N -> list N -> option (list N))
+         (ctr : list N -> list N -> nat -> option (list N))
+         (cbc : list N -> list N -> list N -> option (list N))
+         (addr_of : list N -> option (list N)),
+    (forall m, bytesb (H m) = true) ->
+    (forall k iv n ks, ctr k iv n = Some ks -> bytesb ks = true) ->
+    forall (lg : bool) (d : N) (addr id auth : list N) (n p : Z) (salt iv : list N) (e : envelope) (a : list N),
+      (0 < d)%N -> (d < secp256k1N)%N ->
+      length id = 16 -> bytesb id = true -> bytesb salt = true -> bytesb iv = true ->
+      addr_of (padded32 d) = Some a ->
+      encrypt_key H kdf ctr d addr id auth n p salt iv = Ok e ->
+      decrypt_key lg H kdf ctr cbc addr_of (to_json e) auth = Ok (padded32 d, a, id).
+Proof. exact decrypt_encrypt. Qed.
+Print Assumptions C52_decrypt_encrypt.
+
+(* EncryptDataV3 / DecryptDataV3 on arbitrary data *)
+Theorem C52_decrypt_encrypt_data :
+  forall (H : list N -> list N) (kdf : kdf_alg -> list N -> list N -> option (list N))
+         (ctr : list N -> list N -> nat -> option (list N)),
+    (forall m, bytesb (H m) = true) ->
+    (forall k iv n ks, ctr k iv n = Some ks -> bytesb ks = true) ->
+    forall (lg : bool) (data auth : list N) (n p : Z) (salt iv : list N) (cj : crypto_json),
+      bytesb data = true -> bytesb salt = true -> bytesb iv = true ->
+      encrypt_data_v3 H kdf ctr data auth n p salt iv = Ok cj ->
+      decrypt_data_v3 lg H kdf ctr cj auth = Ok data.
+Proof. exact decrypt_encrypt_data. Qed.
+Print Assumptions C52_decrypt_encrypt_data.
+
+(* A passphrase whose derived key differs in bytes 16..32 (the MAC key) is rejected with
+   ErrDecrypt.  The premise  skipn 16 dk' <> skipn 16 dk  is the named cryptographic
+   hypothesis "a different passphrase gives a different MAC key" (KDF separation); H_inj_on is
+   collision freedom of Keccak on the two MAC inputs.  The premise is NOT implied by
+   auth' <> auth: scrypt and PBKDF2 see the passphrase only through its HMAC key block, so p and
+   p||0x00 (and a passphrase > 64 bytes and its SHA-256 digest) derive the same key and both
+   open the file (C52_same_derived_key_accepted; exhibited on the real code by the harness). *)
+Theorem C52_wrong_pass_fails :
+  forall (H : list N -> list N) (kdf : kdf_alg -> list N -> list N -> option (list N))
+         (ctr : list N -> list N -> nat -> option (list N))
+         (cbc : list N -> list N -> list N -> option (list N))
+         (addr_of : list N -> option (list N)),
+    (forall m, bytesb (H m) = true) ->
+    (forall k iv n ks, ctr k iv n = Some ks -> bytesb ks = true) ->
+    forall (lg : bool) (d : N) (addr id auth auth' : list N) (n p : Z) (salt iv : list N)
+           (e : envelope) (dk dk' : list N),
+      (d < 2 ^ 256)%N -> length id = 16 -> bytesb id = true -> bytesb salt = true -> bytesb iv = true ->
+      encrypt_key H kdf ctr d addr id auth n p salt iv = Ok e ->
+      kdf (KScrypt n 8%Z p) auth salt = Some dk ->
+      kdf (KScrypt n 8%Z p) auth' salt = Some dk' -> length dk' = 32 ->
+      skipn 16 dk' <> skipn 16 dk ->
+      (forall ct, H (skipn 16 dk' ++ ct) = H (skipn 16 dk ++ ct) ->
+                  skipn 16 dk' ++ ct = skipn 16 dk ++ ct) ->
+      decrypt_key lg H kdf ctr cbc addr_of (to_json e) auth' = Err EDecrypt.
+Proof. exact wrong_pass_fails. Qed.
+Print Assumptions C52_wrong_pass_fails.
+
+(* the same for ANY accepted crypto section (scrypt or PBKDF2 file, hand-made or not), and for a
+   changed salt / KDF name / KDF parameter (cj' differs from cj only in kdf, kdfparams) *)
+Theorem C52_mac_key_change_detected :
+  forall (H : list N -> list N) (kdf : kdf_alg -> list N -> list N -> option (list N))
+         (ctr : list N -> list N -> nat -> option (list N))
+         (lg : bool) (cj cj' : crypto_json) (auth auth' pt dk dk' ct : list N),
+    decrypt_data_v3 lg H kdf ctr cj auth = Ok pt ->
+    get_kdf_key lg kdf cj auth = Ok dk ->
+    hex_decode (cj_ciphertext cj) = Some ct ->
+    cj_cipher cj' = cj_cipher cj -> cj_mac cj' = cj_mac cj -> cj_iv cj' = cj_iv cj ->
+    cj_ciphertext cj' = cj_ciphertext cj ->
+    get_kdf_key lg kdf cj' auth' = Ok dk' ->
+    skipn 16 dk' <> skipn 16 dk ->
+    (H (skipn 16 dk' ++ ct) = H (skipn 16 dk ++ ct) -> skipn 16 dk' ++ ct = skipn 16 dk ++ ct) ->
+    decrypt_data_v3 lg H kdf ctr cj' auth' = Err EDecrypt.
+Proof. exact mac_key_change_detected. Qed.
+Print Assumptions C52_mac_key_change_detected.
+
+(* the premise above is necessary: a passphrase deriving the same key is indistinguishable *)
+Theorem C52_same_derived_key_accepted :
+  forall (H : list N -> list N) (kdf : kdf_alg -> list N -> list N -> option (list N))
+         (ctr : list N -> list N -> nat -> option (list N))
+         (lg : bool) (cj : crypto_json) (auth auth' dk : list N),
+    get_kdf_key lg kdf cj auth = Ok dk -> get_kdf_key lg kdf cj auth' = Ok dk ->
+    decrypt_data_v3 lg H kdf ctr cj auth' = decrypt_data_v3 lg H kdf ctr cj auth.
+Proof. exact same_dk_accepted. Qed.
+Print Assumptions C52_same_derived_key_accepted.
+
+(* corruption_detected, exactly: any change of the ciphertext BYTES is ErrDecrypt (under
+   H_inj_on the two MAC inputs), a ciphertext that is no longer hex is a hex error, any change
+   of the MAC bytes is ErrDecrypt or a hex error (no hypothesis).  Another SPELLING of the same
+   bytes (upper-case hex) is not a change. *)
+Theorem C52_ciphertext_corruption_detected :
+  forall (H : list N -> list N) (kdf : kdf_alg -> list N -> list N -> option (list N))
+         (ctr : list N -> list N -> nat -> option (list N))
+         (lg : bool) (cj : crypto_json) (auth pt dk ct c' ct' : list N),
+    decrypt_data_v3 lg H kdf ctr cj auth = Ok pt ->
+    get_kdf_key lg kdf cj auth = Ok dk ->
+    hex_decode (cj_ciphertext cj) = Some ct ->
+    hex_decode c' = Some ct' -> ct' <> ct ->
+    (H (skipn 16 dk ++ ct') = H (skipn 16 dk ++ ct) -> skipn 16 dk ++ ct' = skipn 16 dk ++ ct) ->
+    decrypt_data_v3 lg H kdf ctr (with_ct cj c') auth = Err EDecrypt.
+Proof. exact ciphertext_corruption_detected. Qed.
+Print Assumptions C52_ciphertext_corruption_detected.
+
+Theorem C52_ciphertext_bad_hex_detected :
+  forall (H : list N -> list N) (kdf : kdf_alg -> list N -> list N -> option (list N))
+         (ctr : list N -> list N -> nat -> option (list N))
+         (lg : bool) (cj : crypto_json) (auth pt c' : list N),
+    decrypt_data_v3 lg H kdf ctr cj auth = Ok pt -> hex_decode c' = None ->
+    decrypt_data_v3 lg H kdf ctr (with_ct cj c') auth = Err EHex.
+Proof. exact ciphertext_bad_hex_detected. Qed.
+Print Assumptions C52_ciphertext_bad_hex_detected.
+
+Theorem C52_mac_corruption_detected :
+  forall (H : list N -> list N) (kdf : kdf_alg -> list N -> list N -> option (list N))
+         (ctr : list N -> list N -> nat -> option (list N))
+         (lg : bool) (cj : crypto_json) (auth pt m' : list N),
+    decrypt_data_v3 lg H kdf ctr cj auth = Ok pt ->
+    hex_decode m' <> hex_decode (cj_mac cj) ->
+    decrypt_data_v3 lg H kdf ctr (with_mac cj m') auth = Err EDecrypt \/
+    decrypt_data_v3 lg H kdf ctr (with_mac cj m') auth = Err EHex.
+Proof. exact mac_corruption_detected. Qed.
+Print Assumptions C52_mac_corruption_detected.
+
+(* "ANY corruption of the file is detected" is FALSE of the faithful model (and of the format):
+   the IV is not under the MAC.  Any other 16-byte IV is accepted by DecryptDataV3 and yields
+   ciphertext XOR the other keystream, i.e. a different plaintext / private key, with no error.
+   (DecryptKey then returns another key and address; only GetKey's comparison with the
+   account address, C52_get_key_address, catches it.) *)
+Theorem C52_any_corruption_detected_refuted_iv :
+  forall (H : list N -> list N) (kdf : kdf_alg -> list N -> list N -> option (list N))
+         (ctr : list N -> list N -> nat -> option (list N))
+         (lg : bool) (cj : crypto_json) (auth pt dk ct i' iv' ks' : list N),
+    decrypt_data_v3 lg H kdf ctr cj auth = Ok pt ->
+    get_kdf_key lg kdf cj auth = Ok dk ->
+    hex_decode (cj_ciphertext cj) = Some ct ->
+    hex_decode i' = Some iv' -> length iv' = 16 ->
+    ctr (firstn 16 dk) iv' (length ct) = Some ks' -> length ks' = length ct ->
+    decrypt_data_v3 lg H kdf ctr (with_iv cj i') auth = Ok (xor_bytes ct ks').
+Proof. exact iv_change_undetected. Qed.
+Print Assumptions C52_any_corruption_detected_refuted_iv.
+
+(* the "address" field of the file is never read by DecryptKey ... *)
+Theorem C52_address_field_ignored :
+  forall (H : list N -> list N) (kdf : kdf_alg -> list N -> list N -> option (list N))
+         (ctr : list N -> list N -> nat -> option (list N))
+         (lg : bool) (e : envelope) (a' auth : list N),
+    decrypt_key_v3 lg H kdf ctr (mkEnv a' (e_crypto e) (e_id e) (e_version e)) auth
+    = decrypt_key_v3 lg H kdf ctr e auth.
+Proof. exact address_field_ignored. Qed.
+Print Assumptions C52_address_field_ignored.
+
+(* ... GetKey (the keystore's load path) returns a key only if its DERIVED address is the account's *)
+Theorem C52_get_key_address :
+  forall (H : list N -> list N) (kdf : kdf_alg -> list N -> list N -> option (list N))
+         (ctr : list N -> list N -> nat -> option (list N))
+         (cbc : list N -> list N -> list N -> option (list N))
+         (addr_of : list N -> option (list N))
+         (lg : bool) (addr : list N) (j : jv) (auth : list N) (r : list N * list N * list N),
+    get_key lg H kdf ctr cbc addr_of addr j auth = Ok r ->
+    snd (fst r) = addr /\ decrypt_key lg H kdf ctr cbc addr_of j auth = Ok r.
+Proof. exact get_key_address. Qed.
+Print Assumptions C52_get_key_address.
+
+(* version and cipher: a file is accepted only on the version-"1" path or with version = 3
+   and cipher = "aes-128-ctr"; the two checks in isolation *)
+Theorem C52_version_and_cipher_checked :
+  forall (H : list N -> list N) (kdf : kdf_alg -> list N -> list N -> option (list N))
+         (ctr : list N -> list N -> nat -> option (list N))
+         (cbc : list N -> list N -> list N -> option (list N))
+         (addr_of : list N -> option (list N))
+         (lg : bool) (j : jv) (auth : list N) (r : list N * list N * list N),
+    decrypt_key lg H kdf ctr cbc addr_of j auth = Ok r ->
+    exists kvs, obj_of j = Ok kvs /\
+      (is_v1 kvs = true \/
+       exists e, unmarshal_env false kvs = Ok e /\ e_version e = 3%Z /\
+                 cj_cipher (e_crypto e) = s_aes128ctr).
+Proof. exact version_and_cipher_checked. Qed.
+Print Assumptions C52_version_and_cipher_checked.
+
+Theorem C52_version_checked :
+  forall (H : list N -> list N) (kdf : kdf_alg -> list N -> list N -> option (list N))
+         (ctr : list N -> list N -> nat -> option (list N))
+         (lg : bool) (e : envelope) (auth : list N),
+    e_version e <> 3%Z -> decrypt_key_v3 lg H kdf ctr e auth = Err EVersion.
+Proof. exact version_checked. Qed.
+Print Assumptions C52_version_checked.
+
+Theorem C52_cipher_checked :
+  forall (H : list N -> list N) (kdf : kdf_alg -> list N -> list N -> option (list N))
+         (ctr : list N -> list N -> nat -> option (list N))
+         (lg : bool) (cj : crypto_json) (auth : list N),
+    cj_cipher cj <> s_aes128ctr -> decrypt_data_v3 lg H kdf ctr cj auth = Err ECipher.
+Proof. exact cipher_checked. Qed.
+Print Assumptions C52_cipher_checked.
+
+(* decrypt_total: on EVERY JSON value tree and passphrase the repaired code (lg = false)
+   returns a key or an error class, never the panic class; same for GetKey. *)
+Theorem C52_decrypt_total :
+  forall (H : list N -> list N) (kdf : kdf_alg -> list N -> list N -> option (list N))
+         (ctr : list N -> list N -> nat -> option (list N))
+         (cbc : list N -> list N -> list N -> option (list N))
+         (addr_of : list N -> option (list N)) (j : jv) (auth : list N),
+    decrypt_key false H kdf ctr cbc addr_of j auth <> Err EPanic.
+Proof. exact decrypt_key_total. Qed.
+Print Assumptions C52_decrypt_total.
+
+Theorem C52_get_key_total :
+  forall (H : list N -> list N) (kdf : kdf_alg -> list N -> list N -> option (list N))
+         (ctr : list N -> list N -> nat -> option (list N))
+         (cbc : list N -> list N -> list N -> option (list N))
+         (addr_of : list N -> option (list N)) (addr : list N) (j : jv) (auth : list N),
+    get_key false H kdf ctr cbc addr_of addr j auth <> Err EPanic.
+Proof. exact get_key_total. Qed.
+Print Assumptions C52_get_key_total.
+
+(* before the repair the statement was false: a well-formed JSON file without kdfparams makes
+   DecryptKey panic for every passphrase (replayed on the unrepaired code; corpus/C52) *)
+Theorem C52_decrypt_total_legacy_refuted :
+  forall (H : list N -> list N) (kdf : kdf_alg -> list N -> list N -> option (list N))
+         (ctr : list N -> list N -> nat -> option (list N))
+         (cbc : list N -> list N -> list N -> option (list N))
+         (addr_of : list N -> option (list N)),
+    exists j, forall auth, decrypt_key true H kdf ctr cbc addr_of j auth = Err EPanic.
+Proof. intros. exists legacy_panic_file. apply legacy_panics. Qed.
+Print Assumptions C52_decrypt_total_legacy_refuted.
+
+(* the hypotheses are satisfiable and the conclusions non-trivial: a concrete instance of the
+   primitives with an encryption that changes the plaintext, decrypts with the right passphrase,
+   gives ErrDecrypt with a wrong one / a changed MAC and EVersion for version 4 *)
+Example C52_nonvacuous : nonvacuous_check = true.
+Proof. vm_compute. reflexivity. Qed.
